@@ -5,18 +5,20 @@ import Verif.Model.Renew
   Two kinds of lines, `key=value` fields separated by single spaces, first field the kind:
 
   gate mode=coded|spec rev=no|yes|err db=none|gone|<prov> ext=none|bad|gone|<prov> nyv=0|1 exp=0|1
+       [entry=token tok=<parses><claimsVerify><tokenUnused><claimsValid><audienceOk><issuerOk>]
       <prov> = ctl:<d><a><c> (d = renewal disabled, a = allow after expiry, c = n|a|r custom func)
              | base | uninit
       mode=coded runs `Renew.current`, output allow | refuse:<reason> | crash
       mode=spec  runs `Renew.repaired` (the variant for which the full-strength theorem is
                  proved), output allow | refuse | crash
+      entry=token: POST /1.0/renew with a renew token (`apiRenew`), output allow | refuse | crash
 
   renew|rekey subj= ku= eku= ueku= uce= bc= ca= mpl= mplz= ocsp= iurl= dns= em= ip= uri= ncc=
-      pd= xd= pi= xi= pe= xe= pu= xu= crl= pol= key= nkey= nb= na= bd= exts= gen= aki= nski=
+      pd= xd= pi= xi= pe= xe= pu= xu= crl= pol= key= nkey= nb= na= nyv= exp= bd= exts= gen= aki= nski=
       lists joined by ',' (`-` when empty); byte strings `x<hex>`; OIDs dotted; `exts`/`gen`
       entries `oid/crit/x<hex>`; `nkey=!` on renew.
       output: issued key= subj= dur= exts= fdiff= keep=ok|bad serial=new sig=ok win=ok | signerr | refuse:<reason> | crash
-  fidspec op=renew|rekey hasski=0|1   output: fdiff=- (renew) | fdiff=ski (rekey): what the property allows to differ
+  fidspec op=renew|rekey hasski=0|1   output: `fdiff=- key=ok` (renew) | `fdiff=ski key=ok` (rekey): what the property allows to differ
   unissued …   (the template was not issuable; nothing to renew)  output: not-issued
 -/
 open Verif Verif.Renew
@@ -87,6 +89,22 @@ def reasonS : Reason → String
   | .notImplemented => "notimplemented" | .renewDisabled => "disabled"
   | .notYetValid => "notyetvalid" | .expired => "expired" | .customRefused => "custom"
 
+def noFields : Fields :=
+  { rawSubject := [], keyUsage := 0, extKeyUsage := [], unknownExtKeyUsage := [], unhandledCritical := [],
+    bcValid := false, isCA := false, maxPathLen := 0, maxPathLenZero := false, ocspServer := [],
+    issuingURL := [], dnsNames := [], emailAddresses := [], ipAddresses := [], uris := [], ncCritical := false,
+    permDNS := [], exclDNS := [], permIP := [], exclIP := [], permEmail := [], exclEmail := [], permURI := [],
+    exclURI := [], crlDP := [], policies := [] }
+
+/-- the gate lines carry no certificate: any renewable one will do -/
+def dummyCert : Cert :=
+  { f := noFields, publicKey := [], serial := 0, notBefore := 0, notAfter := 86400, issuer := [], extensions := [] }
+
+def dummyEnv : Env :=
+  { enc := { ku := fun _ => [], eku := fun _ => [], bc := fun _ => [], ski := id, aki := id, aia := fun _ => [],
+             san := fun _ => [], pol := fun _ => [], nc := fun _ => [], crl := fun _ => [] }
+    now := 0, backdate := 60, serial := 1, issuerSubject := [], parentSKI := [], skiOf := id }
+
 def gate (kv : List (String × String)) : Option String := do
   let mode ← lookup kv "mode"
   let i : GateIn := {
@@ -95,18 +113,32 @@ def gate (kv : List (String × String)) : Option String := do
     ext := (← extl? (← lookup kv "ext"))
     notYetValid := (← bool? (← lookup kv "nyv"))
     expired := (← bool? (← lookup kv "exp")) }
-  match mode with
-  | "coded" =>
-    match Renew.decide current i with
+  -- entry point: direct call of Authority.Renew/Rekey (default) or the HTTP handler with a renew token
+  let entry : Option Entry ←
+    match lookup kv "entry" with
+    | none => pure none
+    | some "token" =>
+      match ((← lookup kv "tok").toList.map fun c => c == '1') with
+      | [a, b, c, d, e, f] => pure (some (.token a b c d e f))
+      | _ => none
+    | some _ => none
+  let v ← match mode with
+    | "coded" => pure current
+    | "spec" => pure repaired
+    | _ => none
+  match entry with
+  | none =>
+    match Renew.decide v i, mode with
+    | .crash, _ => pure "crash"
+    | .val .allow, _ => pure "allow"
+    | .val (.refuse r), "coded" => pure s!"refuse:{reasonS r}"
+    | .val (.refuse _), _ => pure "refuse"
+  | some e =>
+    -- only the decision class is observable through the handler (status 201 or not)
+    match apiRenew v dummyEnv i dummyCert none e with
+    | .created _ => pure "allow"
     | .crash => pure "crash"
-    | .val .allow => pure "allow"
-    | .val (.refuse r) => pure s!"refuse:{reasonS r}"
-  | "spec" =>
-    match Renew.decide repaired i with
-    | .crash => pure "crash"
-    | .val .allow => pure "allow"
-    | .val (.refuse _) => pure "refuse"
-  | _ => none
+    | _ => pure "refuse"
 
 /-! ### fidelity -/
 
@@ -174,7 +206,10 @@ def fidelity (isRekey : Bool) (kv : List (String × String)) : Option String := 
   let env : Env := {
     enc, now := 0, backdate := (← int? (← g "bd")), serial := 1, issuerSubject := []
     parentSKI := (← str? (← g "aki")), skiOf := fun _ => nski }
-  let i : GateIn := ⟨.no, .found (.ctl false false .none), .found (.ctl false false .none), false, false⟩
+  -- the certificate was just issued by a present provisioner with default claims; the two clock
+  -- comparisons are inputs
+  let i : GateIn := ⟨.no, .found (.ctl false false .none), .found (.ctl false false .none),
+    (← bool? (← g "nyv")), (← bool? (← g "exp"))⟩
   match renew current env i old pk with
   | .crash => pure "crash"
   | .val (.refused r) => pure s!"refuse:{reasonS r}"
@@ -201,8 +236,8 @@ def eval (line : String) : Option String :=
     | "fidspec" =>
       -- the property itself: parsed field groups that may differ between old and new certificate
       match lookup kv "op" with
-      | some "renew" => some "fdiff=-"
-      | some "rekey" => some "fdiff=ski"
+      | some "renew" => some "fdiff=- key=ok"
+      | some "rekey" => some "fdiff=ski key=ok"
       | _ => none
     | _ => none
 
